@@ -25,6 +25,9 @@ BOUNDS = {
               "addresses": "all secret scalars / public keys (group model), both networks, five kinds, private and watch-only nodes, "
                            "compressed and uncompressed P2PKH"},
     "thorough": {"ripemd160(data)": "every length 0..1024", "addresses": "as quick", "ripemd compress": "as quick"}}
+BOUNDS_ADDED = "node whose network flag differs from the wallet's; private node holding the 33-byte form 00||k"
+for _t in ("quick", "thorough"):
+    BOUNDS[_t]["histories, lifetimes, injected faults, boundary vectors"] = BOUNDS_ADDED
 STUBS = ["SHA-256 -> uninterpreted function", "in the address-wiring cases RIPEMD-160 is replaced by an uninterpreted function "
          "(its real code is verified in the ripemd cases)", "secp256k1 -> group model", "Base58Check -> recording summary"]
 ASSUMPTIONS = ["reference RIPEMD-160 (spec/ripemd.py) is checked against OpenSSL's ripemd160 natively on every run"]
